@@ -11,6 +11,16 @@ for id in $IDS; do
   line="$(tools/try_mutant.sh "$D/patch.diff" "$out" "$P" 2>&1 | head -1)"
   rc=$(echo "$line" | sed -n 's/.*exit=\([0-9]*\).*/\1/p')
   sigs=$(grep 'signature:' "$out/$P.log" | sed 's/.*signature: //' | sort -u | head -6 | python3 -c 'import sys,json; print(json.dumps([l.strip() for l in sys.stdin]))')
+  other=""
+  if [ "$rc" != "1" ]; then
+    # not caught by its own property's check: does another claimed check catch it?
+    for Q in C15 C16 C14 C17 C18 C20; do
+      [ "$Q" = "$P" ] && continue
+      l2="$(tools/try_mutant.sh "$D/patch.diff" "$out" "$Q" 2>&1 | head -1)"
+      if echo "$l2" | grep -q "exit=1"; then other="$Q: $(grep 'signature:' "$out/$Q.log" | sed 's/.*signature: //' | sort -u | head -2 | tr '\n' ';')"; break; fi
+    done
+  fi
+  export OTHER="$other"
   python3 - "$D" "$P" "$ver" "$rc" "$sigs" <<'PY'
 import json,sys,os
 d,p,ver,rc,sigs=sys.argv[1:6]
@@ -19,9 +29,10 @@ try: am=json.load(open(os.path.join(d,'agent_meta.json')))
 except Exception: pass
 meta={"property":p,"breaks":am.get("mechanism",""),"needs_to_manifest":am.get("needs",""),"files":am.get("files",[]),
  "what_i_ran":["tools/verify_mutant.sh "+d+"  ->  "+ver,"tools/try_mutant.sh "+d+"/patch.diff <out> "+p+"  (quick tier of ./check "+p+" against a scratch copy of /repo with the patch applied)"],
- "confirmed":ver.startswith("CONFIRMED"),"check_exit":int(rc) if rc else None,"detected":rc=="1","signatures":json.loads(sigs)}
+ "confirmed":ver.startswith("CONFIRMED"),"check_exit":int(rc) if rc else None,"detected":rc=="1","signatures":json.loads(sigs),
+ "detected_by_other_check":os.environ.get("OTHER","")}
 json.dump(meta,open(os.path.join(d,'meta.json'),'w'),indent=1)
-print(d, "confirmed" if meta["confirmed"] else "NOT-CONFIRMED", "exit="+str(rc), meta["signatures"][:2])
+print(d, "confirmed" if meta["confirmed"] else "NOT-CONFIRMED", "exit="+str(rc), meta["signatures"][:2], meta["detected_by_other_check"])
 PY
   rm -rf "$out"
 done
